@@ -498,7 +498,7 @@ def uses_app_env(trace, app_env):
 
 class ProgramI(Interface):
     """a Program primitive: command, stdin parts, transformations, structure (all opaque here)"""
-    attrs = {'command': A_COMMAND, 'stdin': ListOf(Any_), 'transformation': ListOf(Any_)}
+    attrs = {'command': A_COMMAND, 'stdin': ListOf(Iface(lambda: StringSourceI)), 'transformation': ListOf(Any_)}
     methods = {'structure': Method(returns=Any_)}
 
 
@@ -573,6 +573,7 @@ P_TBP = 'exactly_lib.impls.types.string_transformer.impl.sources.transformed_by_
 class ContentsI(Interface):
     """StringSourceContents: only its file is used by the sites"""
     attrs = {'as_file': Iface(FsPathI), 'tmp_file_space': DIR_FILE_SPACE}
+    methods = {'write_to': Method()}
 
 
 class StringSourceI(Interface):
@@ -838,3 +839,198 @@ M.contract(P_FTU + ':make_transformed_file_from_output_in_instruction_tmp_dir',
                all_use(trace, os_services.command_executor, environment._proc_exe_settings)
                and exc._status is pfh.PassOrFailOrHardErrorEnum.HARD_ERROR}},
            raises_only=())
+
+
+# ------------------------------------------------------------------------------ the action to check: actors
+
+from exactly_lib.impls.actors.program import execution as pgm_execution
+from exactly_lib.impls.actors.util.actor_from_parts import parts as actor_parts
+from exactly_lib.impls.actors.util.actor_from_parts import command_executor as actor_cmd_exe
+from exactly_lib.impls.actors import file_interpreter
+from exactly_lib.impls.actors.source_interpreter import executor as src_interpreter_executor
+from exactly_lib.util.file_utils.std import StdFiles, StdOutputFiles
+
+from exactly_lib.impls.types.string_source.factory import RootStringSourceFactory
+
+P_PGX = 'exactly_lib.impls.actors.program.execution'
+
+M.contract('exactly_lib.impls.types.string_source.factory:RootStringSourceFactory.of_file__poorly_described',
+           trusted=True, params=dict(self=Any_, file=Any_), returns=STRING_SOURCE)
+M.trust('string_source.factory.RootStringSourceFactory.of_file__poorly_described(file) builds a string source for an '
+        'existing file; it starts no process')
+
+
+class ProgramDdvI(Interface):
+    methods = {'value_of_any_dependency': Method(returns=Iface(ProgramAdvI))}
+
+
+class ProgramSdvI(Interface):
+    attrs = {'references': Any_}
+    methods = {'resolve': Method(returns=Iface(ProgramDdvI))}
+
+
+PROGRAM_SDV = Iface(ProgramSdvI)
+OUTPUT_FILES = Inst(StdOutputFiles, _tuple=[Any_, Any_])
+STD_FILES = Inst(StdFiles, _tuple=[Any_, OUTPUT_FILES])
+PGM_EXECUTOR = Inst(pgm_execution.Executor, _os_services=OS_SERVICES, _program=PROGRAM_SDV)
+
+
+def carries(app_env, os_services, settings):
+    return type(app_env) is ApplicationEnvironment and app_env._os_services is os_services \
+        and app_env._process_execution_settings is settings
+
+
+M.contract(P_PGX + ':Executor._app_env', inline=True,
+           params=dict(self=PGM_EXECUTOR, environment=ENV_POST_SDS, settings=SETTINGS),
+           ensures={'the given settings object, unchanged': lambda self, settings, result:
+           carries(result, self._os_services, settings)}, raises_only=())
+
+M.contract(P_PGX + ':_ExecutorWithoutTransformation.execute', inline=True,
+           params=dict(self=Inst(pgm_execution._ExecutorWithoutTransformation, _app_env=APP_ENV, _command=A_COMMAND,
+                                 _atc_files=STD_FILES)), returns=Int,
+           ensures={
+               'one process start, with the settings of the application environment, the command and the ATC files':
+                   lambda self, trace: one_start(trace, self._command) and uses_app_env(trace, self._app_env)
+                                       and executions(trace)[0][3] is self._atc_files,
+               'exit code is the one the executor returned': lambda result, trace: result == execution_results(trace)[0],
+           },
+           raises={HardErrorException: {'ensures': lambda self, trace: uses_app_env(trace, self._app_env)}},
+           raises_only=())
+
+M.contract(P_PGX + ':_ExecutorWithTransformation.execute', inline=True,
+           params=dict(self=Inst(pgm_execution._ExecutorWithTransformation, _app_env=APP_ENV, _program=PROGRAM,
+                                 _resolved_transformer_for_program=Iface(TransformerI), _atc_files=STD_FILES,
+                                 _string_source_factory=Inst(RootStringSourceFactory,
+                                                             _tmp_file_space=DIR_FILE_SPACE))), returns=Int,
+           ensures={
+               'one process start, with the settings of the application environment':
+                   lambda self, trace: one_start(trace, self._program.command) and uses_app_env(trace, self._app_env),
+               'stdin and stderr of the process are those of the ATC': lambda self, trace:
+               executions(trace)[0][3].stdin is self._atc_files.stdin
+               and executions(trace)[0][3].output.err is self._atc_files.output.err,
+               'exit code is the one the executor returned': lambda result, trace: result == execution_results(trace)[0],
+           },
+           raises={HardErrorException: {'ensures': lambda self, trace: uses_app_env(trace, self._app_env)}},
+           raises_only=())
+
+M.contract(P_PGX + ':Executor.execute',
+           params=dict(self=PGM_EXECUTOR, environment=ENV_POST_SDS, settings=SETTINGS, stdin=Opt(STRING_SOURCE),
+                       output=OUTPUT_FILES), returns=Int,
+           ensures={
+               'one process start on the OS services, with the given settings object (its timeout) unchanged':
+                   lambda self, settings, trace: len(executions(trace)) == 1
+                                                 and all_use(trace, self._os_services.command_executor, settings),
+               'the program is built with an application environment that carries the given settings, unchanged':
+                   lambda self, settings, trace: len(primitives(trace)) == 1
+                                                 and carries(primitives(trace)[0], self._os_services, settings),
+               'exit code is the one the executor returned': lambda result, trace: result == execution_results(trace)[0],
+           },
+           raises={HardErrorException: {'ensures': lambda self, settings, trace:
+           all_use(trace, self._os_services.command_executor, settings)}},
+           raises_only=())
+
+
+P_PARTS = 'exactly_lib.impls.actors.util.actor_from_parts.parts'
+EXECUTOR_EXECUTE = 'executor.execute'
+
+
+class PartsExecutorI(Interface):
+    """the Executor part of an actor (program / source interpreter executors are verified above and below)"""
+    target_class = actor_parts.Executor
+    methods = {'execute': Method(returns=Int, event=EXECUTOR_EXECUTE,
+                                 params=['environment', 'settings', 'stdin', 'output'], may_raise=(_mk_hard_error,)),
+               'prepare': Method()}
+
+
+ATC_INPUT = Inst(AtcExecutionInput, _tuple=[Opt(STRING_SOURCE), Opt(Any_)])
+
+
+def executor_executions(trace):
+    return [e[2] for e in trace if e[0] == EXECUTOR_EXECUTE]
+
+
+def atc_settings(settings, environment, atc_input):
+    """settings of the action to check: the TIMEOUT of the environment, the environ of the act-phase input"""
+    return type(settings) is ProcessExecutionSettings and timeout_of(settings) == env_timeout(environment) \
+        and environ_of(settings) == atc_input[1]
+
+
+def hard_error_iff_raised(result, trace, raised_event):
+    """the step result is an exit code iff the start returned; a HardErrorException (cannot start / TIMEOUT)
+    gives a hard-error result -- which ActionToCheckExecutor.execute turns into HARD_ERROR of act/execute"""
+    if any([e[0] == raised_event for e in trace]):
+        return result.is_hard_error and not result.is_exit_code
+    return result.is_exit_code and result.exit_code == [e[2] for e in trace if e[0] == raised_event[:-7] + ':returned'][0]
+
+
+M.contract(P_PARTS + ':ActionToCheckFromParts.execute',
+           params=dict(self=Inst(actor_parts.ActionToCheckFromParts, object_to_execute=Any_, validator_constructor=Any_,
+                                 executor_constructor=Any_, _ActionToCheckFromParts__validator=Any_,
+                                 _ActionToCheckFromParts__executor=Iface(PartsExecutorI),
+                                 _ActionToCheckFromParts__symbol_usages=Any_),
+                       environment=ENV_POST_SDS, os_services=OS_SERVICES, atc_input=ATC_INPUT, output=OUTPUT_FILES),
+           returns=Any_,
+           ensures={
+               'the executor is run once, with the timeout of the environment and the environ/stdin of the act input':
+                   lambda self, environment, atc_input, output, trace:
+                   len(executor_executions(trace)) == 1
+                   and executor_executions(trace)[0][0] is environment
+                   and atc_settings(executor_executions(trace)[0][1], environment, atc_input)
+                   and executor_executions(trace)[0][2] == atc_input[0]
+                   and executor_executions(trace)[0][3] is output,
+               'exit code, or hard error when the executor raised HardErrorException (e.g. timeout)':
+                   lambda result, trace: hard_error_iff_raised(result, trace, EXECUTOR_EXECUTE + ':raised'),
+           }, raises_only=())
+
+
+class CommandSdvI(Interface):
+    methods = {'resolve': Method(returns=Iface(CommandDdvI))}
+
+
+class _OsProcessExecutorForProof(actor_cmd_exe.OsProcessExecutor):
+    """concrete stand-in for the abstract OsProcessExecutor: the command to execute is an arbitrary CommandSdv"""
+
+    def _command_to_execute(self, environment):
+        return self.the_command_sdv
+
+
+M.contract('exactly_lib.impls.actors.util.actor_from_parts.command_executor:OsProcessExecutor.execute',
+           params=dict(self=Inst(_OsProcessExecutorForProof, os_services=OS_SERVICES, the_command_sdv=Iface(CommandSdvI)),
+                       environment=ENV_POST_SDS, settings=SETTINGS, stdin=Opt(STRING_SOURCE), output=OUTPUT_FILES),
+           returns=Int,
+           ensures={
+               'one process start on the OS services, with the given settings object (its timeout) unchanged':
+                   lambda self, settings, trace: len(executions(trace)) == 1
+                                                 and all_use(trace, self.os_services.command_executor, settings),
+               'stdout/stderr of the process are the given output files': lambda output, trace:
+               executions(trace)[0][3].output is output,
+               'exit code is the one the executor returned': lambda result, trace: result == execution_results(trace)[0],
+           },
+           raises={HardErrorException: {'ensures': lambda self, settings, trace:
+           all_use(trace, self.os_services.command_executor, settings)}},
+           raises_only=())
+
+
+class MakeCommandI(Interface):
+    methods = {'__call__': Method(returns=A_COMMAND, may_raise=(_mk_hard_error,))}
+
+
+M.contract('exactly_lib.impls.actors.file_interpreter:_ActionToCheck.execute',
+           params=dict(self=Inst(file_interpreter._ActionToCheck, _symbol_usages=Any_, _source_file=Any_,
+                                 _make_command=Iface(MakeCommandI), _validator=Any_),
+                       environment=ENV_POST_SDS, os_services=OS_SERVICES, atc_input=ATC_INPUT, output=OUTPUT_FILES),
+           returns=Any_,
+           ensures={
+               'at most one process start, on the OS services, with the timeout of the environment and the environ '
+               'of the act input':
+                   lambda environment, os_services, atc_input, trace:
+                   len(executions(trace)) <= 1
+                   and all([ex is os_services.command_executor and atc_settings(s, environment, atc_input)
+                            for (ex, _c, s, _f) in executions(trace)]),
+               'stdout/stderr of the process are the given output files': lambda output, trace:
+               all([f.output is output for (_e, _c, _s, f) in executions(trace)]),
+               'exit code iff the process start returned; else hard error (e.g. timeout)':
+                   lambda result, trace:
+                   (result.is_exit_code and result.exit_code == execution_results(trace)[0])
+                   if len(execution_results(trace)) == 1 else (result.is_hard_error and not result.is_exit_code),
+           }, raises_only=())
